@@ -339,6 +339,121 @@ theorem C05_linear_code_range (eps : ℚ) (cfg : QLCfg) (hs : cfg.signFn = false
     rw [roundTie_int] at a b
     exact ⟨by exact_mod_cast a, by exact_mod_cast b⟩
 
+/-! ### no hidden state: one object, a history of calls
+
+  The theorems above are about the FUNCTIONS `qbAuto` / `qlAuto` of (configuration, data format, tensor).
+  The Python quantizers are mutable objects; `qbCall` / `qlCall` (Model/AutoFx.lean) model what a call reads
+  from and writes to `self`.  The refinement proved here: in ANY history on one object — tensors of any
+  ranks and shapes, the data format switched and public attributes re-assigned between calls — every call
+  returns exactly what a fresh object carrying the attributes of the moment returns for that tensor alone,
+  and a call changes no public attribute.  So every `C05_*` statement holds for the k-th use as for the first.
+-/
+
+/-- a call writes no public attribute, keeps `freeze_scale`, and a frozen object keeps its stored scale -/
+theorem C05_call_keeps_attributes (c : Fl) (o : QBObj) (ch : Bool) (shape : List ℕ) (x : List ℚ) :
+    (qbCall c o ch shape x).1.attrs = o.attrs ∧ (qbCall c o ch shape x).1.frozen = o.frozen ∧
+    (o.frozen = true → (qbCall c o ch shape x).1.scale = o.scale) := by
+  refine ⟨rfl, rfl, ?_⟩
+  intro h; simp [qbCall, h]
+
+/-- the result of a call IS the function `qbAuto` of the attributes, the data format and the tensor; the scale
+    left behind by earlier calls is not an input (two objects that differ only in it give the same result),
+    a frozen post-training scale is -/
+theorem C05_call_ignores_stored_scale (c : Fl) (o o' : QBObj) (ha : o.attrs = o'.attrs)
+    (hf : o.frozen = o'.frozen) (hs : o.frozen = true → o.scale = o'.scale) (ch : Bool) (shape : List ℕ)
+    (x : List ℚ) :
+    (qbCall c o ch shape x).2 = (qbCall c o' ch shape x).2 ∧
+    (qbCall c o ch shape x).2 = qbAuto c (o.attrs.cfg ch) (o.pts shape) shape x := by
+  refine ⟨?_, rfl⟩
+  unfold qbCall QBObj.pts
+  simp only [← ha, ← hf]
+  cases h : o.frozen with
+  | false => simp
+  | true => simp [← hs h]
+
+private theorem stored_after (c : Fl) (o : QBObj) (ch : Bool) (shape : List ℕ) (x : List ℚ) :
+    (if (qbCall c o ch shape x).1.frozen then (qbCall c o ch shape x).1.scale else none) =
+      (if o.frozen then o.scale else none) := by
+  unfold qbCall
+  cases h : o.frozen <;> simp
+
+/-- ANY history on one object (ranks, shapes, data formats, re-assigned attributes): the list of results is
+    the list of results of fresh objects called once each, the attributes after every call are the assigned
+    ones, the frozen flag and a frozen scale never change -/
+theorem C05_history_fresh (c : Fl) (steps : List QBStep) : ∀ o : QBObj,
+    (qbRun c o steps).map (·.2) = qbFresh c o.frozen (if o.frozen then o.scale else none) o.attrs steps ∧
+    (qbRun c o steps).map (·.1.attrs) = qbAttrsAfter o.attrs steps ∧
+    ∀ r ∈ qbRun c o steps, r.1.frozen = o.frozen ∧ (o.frozen = true → r.1.scale = o.scale) := by
+  induction steps with
+  | nil => intro o; simp [qbRun, qbFresh, qbAttrsAfter]
+  | cons s t ih =>
+    intro o
+    obtain ⟨h1, h2, h3⟩ := ih (qbCall c (o.reconf s.set) s.chLast s.shape s.x).1
+    have hst := stored_after c (o.reconf s.set) s.chLast s.shape s.x
+    have hk := C05_call_keeps_attributes c (o.reconf s.set) s.chLast s.shape s.x
+    refine ⟨?_, ?_, ?_⟩
+    · simp only [qbRun, List.map_cons, qbFresh]
+      rw [h1, hst, hk.1, hk.2.1]
+      refine congrArg₂ _ ?_ rfl
+      refine (C05_call_ignores_stored_scale c (o.reconf s.set)
+        { attrs := s.set.getD o.attrs, frozen := o.frozen, scale := if o.frozen then o.scale else none }
+        rfl rfl ?_ _ _ _).1
+      intro hf
+      simp only [QBObj.reconf] at hf ⊢
+      simp [hf]
+    · simp only [qbRun, List.map_cons, qbAttrsAfter]
+      rw [h2, hk.1]; rfl
+    · intro r hr
+      simp only [qbRun, List.mem_cons] at hr
+      rcases hr with rfl | hr
+      · exact ⟨hk.2.1, fun hf => hk.2.2 hf⟩
+      · obtain ⟨a, b⟩ := h3 r hr
+        refine ⟨a.trans hk.2.1, fun hf => ?_⟩
+        have hf' : (qbCall c (o.reconf s.set) s.chLast s.shape s.x).1.frozen = true := hk.2.1.trans hf
+        exact (b hf').trans (hk.2.2 hf)
+
+/-- the k-th call of a history without re-assignments equals the FIRST call of a fresh object on that tensor -/
+theorem C05_kth_call_eq_first_call (c : Fl) (o : QBObj) (pre : List QBStep) (hpre : ∀ t ∈ pre, t.set = none)
+    (s : QBStep) (hs : s.set = none) :
+    ((qbRun c o (pre ++ [s])).map (·.2)).getLast? =
+      some (qbCall c { attrs := o.attrs, frozen := o.frozen, scale := if o.frozen then o.scale else none }
+        s.chLast s.shape s.x).2 := by
+  rw [(C05_history_fresh c (pre ++ [s]) o).1]
+  generalize (if o.frozen then o.scale else none) = st
+  generalize o.attrs = a
+  generalize o.frozen = f
+  induction pre with
+  | nil => simp [qbFresh, hs]
+  | cons p t ih =>
+    have hp : p.set = none := hpre p (by simp)
+    have := ih (fun u hu => hpre u (by simp [hu]))
+    simp only [List.cons_append, qbFresh, hp, Option.getD_none]
+    rw [List.getLast?_cons_of_ne_nil]
+    · exact this
+    · cases t <;> simp [qbFresh]
+
+/-- quantized_linear: a call writes no public attribute, and its result is `qlAuto` — the stored
+    `quantization_scale` of earlier calls is overwritten, never read (no warm start) -/
+theorem C05_linear_call_stateless (c : Fl) (o : QLObj) (ch : Bool) (shape : List ℕ) (x : List ℚ) :
+    (qlCall c o ch shape x).1.attrs = o.attrs ∧ (qlCall c o ch shape x).2 = qlAuto c (o.attrs.cfg ch) shape x :=
+  ⟨rfl, rfl⟩
+
+/-- quantized_linear, any history on one object = fresh objects (whatever scale `qs0` they start with) called
+    once each; attributes after every call are the assigned ones -/
+theorem C05_linear_history_fresh (c : Fl) (qs0 : Stored) (steps : List QLStep) : ∀ o : QLObj,
+    (qlRun c o steps).map (·.2) = qlFresh c qs0 o.attrs steps ∧
+    (qlRun c o steps).map (·.1.attrs) = qlAttrsAfter o.attrs steps := by
+  induction steps with
+  | nil => intro o; simp [qlRun, qlFresh, qlAttrsAfter]
+  | cons s t ih =>
+    intro o
+    obtain ⟨h1, h2⟩ := ih (qlCall c (o.reconf s.set) s.chLast s.shape s.x).1
+    refine ⟨?_, ?_⟩
+    · simp only [qlRun, List.map_cons, qlFresh]
+      rw [h1]; rfl
+    · simp only [qlRun, List.map_cons, qlAttrsAfter]
+      rw [h2]; rfl
+
 /-! ### non-vacuity -/
 
 example : ∃ es, qbAuto (Fl.exact (1/10000000)) ⟨4, 0, true, false, ⟨true, .none, .none⟩, none, none⟩ none [2, 2]
@@ -350,5 +465,11 @@ example : (match keys ⟨true, .one 1, .one 2⟩ [2, 4] with
     | .error _ => false) = true := by decide
 example : (Fl.f32 (1/10000000)).SignPres := Fl.f32_signPres _
 example : (1 : ℤ) ≤ (⟨4, 0, true, false, ⟨true, .none, .none⟩, none, none⟩ : QBCfg).bits := by decide
+
+/-- a two-call history on one object (rank-2 tensor, then a rank-3 tensor under the other data format):
+    both calls succeed and the second equals the call of a fresh object -/
+example : (qbRun (Fl.exact (1/10000000)) ⟨⟨4, 0, true, false, .none, .none, none, none⟩, false, none⟩
+    [⟨none, true, [2, 2], [0, 1/2, 0, -1]⟩, ⟨none, false, [2, 1, 2], [1, 1/2, 3, -1]⟩]).map (fun r => r.2.toOption.isSome)
+    = [true, true] := by decide
 
 end QKV.Props.C05
